@@ -2,6 +2,7 @@ import Driver.OpsValidate
 import Driver.OpsCarddav
 import Driver.OpsCaldav
 import Driver.OpsCodec
+import Driver.OpsCond
 namespace Driver
 
 def dispatch (op : String) (args : List SExp) : Option OpResult :=
@@ -31,6 +32,8 @@ def dispatch (op : String) (args : List SExp) : Option OpResult :=
   | "caldate.dec" => opDateDec true args
   | "caldate.rt" => opDateRt true args
   | "enum.parse" => opEnumParse args
+  | "cond" => opCond args
+  | "cond.match" => opCondMatch args
   | "card.filter" => opCardFilter args
   | _ => none
 
